@@ -77,8 +77,7 @@ def _check_z3(args):
             r = s.check()
             if r == z3.unsat:
                 return idx, 'unsat', None, time.time() - t0, '', None
-            if r == z3.sat:
-                return idx, 'sat', _model_dict(s.model()), time.time() - t0, '', None
+            # with model-based quantifier instantiation switched off a `sat` is only a candidate: the full solver decides
             try:
                 cand = _model_dict(s.model())
             except Exception:
@@ -91,9 +90,30 @@ def _check_z3(args):
         s.from_string(smt2)
         r = s.check()
         model = None
-        if r == z3.sat and want_model:
-            model = _model_dict(s.model())
-        return idx, str(r), model, time.time() - t0, (s.reason_unknown() if r == z3.unknown else ''), cand
+        why = s.reason_unknown() if r == z3.unknown else ''
+        if r == z3.sat:
+            # validate the counter-model: every asserted formula that evaluates to a literal under it must be true
+            # (z3's sequence solver occasionally answers sat with a model that falsifies an assertion)
+            m = s.model()
+            bogus = False
+            validated = True
+            for a in s.assertions():
+                try:
+                    v = m.eval(a, model_completion=True)
+                    if z3.is_false(v):
+                        bogus = True
+                        break
+                    if not z3.is_true(v):
+                        validated = False
+                except Exception:
+                    validated = False
+            if not validated:
+                why = 'unvalidated-sat'      # quantified assertions do not evaluate to a literal: cvc5 is asked as well
+            if bogus:
+                return idx, 'unknown', None, time.time() - t0, 'z3 answered sat with a model that falsifies an assertion (discarded)', cand
+            if want_model:
+                model = _model_dict(m)
+        return idx, str(r), model, time.time() - t0, why, cand
     except Exception as e:   # parse errors etc: undecided, never a verdict
         return idx, 'unknown', None, time.time() - t0, f"z3 error: {e}", cand
 
@@ -132,21 +152,41 @@ def discharge(obls, timeout_s=10, procs=None, use_cvc5=True, both=False):
     # vacuity (satisfiability) probes get a short budget: `unknown` there is not a failure, only `unsat` is
     jobs = [(i, o.smt2(), int((3 if o.meta.get('kind') == 'vacuity-neg' else timeout_s) * 1000), True) for i, o in enumerate(obls)]
     texts = {i: j[1] for i, j in enumerate(jobs)}
+    if os.environ.get('VERIF_DUMP_SMT'):        # debugging aid: one .smt2 per obligation
+        os.makedirs(os.environ['VERIF_DUMP_SMT'], exist_ok=True)
+        for i, o in enumerate(obls):
+            with open(os.path.join(os.environ['VERIF_DUMP_SMT'], o.name.replace('/', '_') + '.smt2'), 'w') as f:
+                f.write(texts[i])
     t0 = time.time()
     if not jobs:
         return 0.0
     with mp.get_context('fork').Pool(procs) as pool:
+        # obligations whose contract names cvc5 as the first back end (sequence-heavy goals z3 only times out on)
+        first = [(i, texts[i], timeout_s) for i, o in enumerate(obls) if o.meta.get('prefer') == 'cvc5' and use_cvc5]
+        done = set()
+        for idx, r, t in pool.imap_unordered(_cvc5_worker, first, chunksize=1):
+            if r == 'unsat':
+                o = obls[idx]
+                o.result, o.model, o.time, o.backend, o.why, o.candidate = r, None, t, 'cvc5', '', None
+                done.add(idx)
+        jobs = [j for j in jobs if j[0] not in done]
         for idx, r, model, t, why, cand in pool.imap_unordered(_check_z3, jobs, chunksize=1):
             o = obls[idx]
             o.result, o.model, o.time, o.backend, o.why, o.candidate = r, model, t, 'z3', why, cand
         if use_cvc5:
             todo = [(i, texts[i], timeout_s) for i, o in enumerate(obls)
-                    if (o.result == 'unknown' or both) and o.meta.get('kind') != 'vacuity-neg']
+                    if i not in done and (o.result == 'unknown' or both or (o.result == 'sat' and o.why == 'unvalidated-sat'))
+                    and o.meta.get('kind') != 'vacuity-neg' and not (o.meta.get('prefer') == 'cvc5' and not both and o.result == 'unknown')]
             for idx, r, t in pool.imap_unordered(_cvc5_worker, todo, chunksize=1):
                 o = obls[idx]
                 o.time += t
                 if o.result == 'unknown' and r != 'unknown':
                     o.result, o.backend = r, 'cvc5'
+                elif o.result == 'sat' and o.why == 'unvalidated-sat' and r == 'unsat':
+                    # z3's model could not be checked against the quantified assertions and cvc5 has a refutation proof:
+                    # the proof decides (z3's sequence solver is known to return such models for nested sequences)
+                    o.result, o.backend, o.model = 'unsat', 'cvc5', None
+                    o.why = 'z3 answered sat with a model that cannot be validated; cvc5 proved unsat'
                 elif both and r != 'unknown' and r != o.result:
                     o.result, o.backend, o.why = 'unknown', 'z3+cvc5', f"solvers disagree: z3={o.result} cvc5={r}"
                 elif both and r == o.result:
